@@ -188,15 +188,16 @@ func Corpus() *Program {
 
 	p.Config = Config{
 		Types: []string{"Scalars", "Temporal", "Collections", "Nesting", "Oneofs", "Embedding", "EmbedOneof",
-			"EmbedDeep", "Naming", "Empties", "Sink", "DeepNest", "Interleave"},
+			"EmbedDeep", "Naming", "Empties", "Sink", "DeepNest", "Interleave",
+			"Leaf", "Mid", "WithOneof"}, // selected types that also occur nested inside other selected types
 		DurationCustomType: DurationCastName,
 		TimeType:           SimTimeType,
 		DurationType:       SimDurationType,
 		ExcludeFields: []string{"Naming.Secret", "Naming.SecretList", "NamedLeaf.Hidden", "Naming.Other.Skip", "EmbP.EpHidden", "Nesting.PtrList.Attrs", "DeepNest.Out.ByKey.LeafMap",
 			"Oneofs.ChC", "WithOneof.VarI", "Interleave.CInline"}, // branches of oneof groups that keep other branches in the schema,
-		ComputedFields:              []string{"Scalars.FString", "Sink.Count", "Leaf.Num", "Sink.Spec.Name"},
-		RequiredFields:              []string{"Sink.Name", "Scalars.FInt32"},
-		SensitiveFields:             []string{"Sink.Data", "Leaf.Str"},
+		ComputedFields:              []string{"Scalars.FString", "Sink.Count", "Leaf.Num", "Sink.Spec.Name", "Oneofs.ChI", "Oneofs.pick_l", "Mid.ChoiceB", "Empties.PickE"},
+		RequiredFields:              []string{"Sink.Name", "Scalars.FInt32", "Oneofs.ChA", "WithOneof.VarS", "Mid.Name", "Nesting.PtrMap.Tags", "Interleave.BGroup", "EmbO.EvB"}, // also on oneof branches and element fields
+		SensitiveFields:             []string{"Sink.Data", "Leaf.Str", "Oneofs.ChJ", "WithOneof.VarM"},
 		NameOverrides:               map[string]string{"Naming.Overridden": "renamed", "Leaf.Flag": "flag_x"},
 		UseStateForUnknownByDefault: true,
 		PlanModifiers: map[string][]string{
